@@ -27,7 +27,7 @@ import (
 )
 
 type Op struct {
-	K   string `json:"k"` // connect connectcut disconnect console chat ladd lrem lerr agent mark bcastx sendx cut badlogin
+	K   string `json:"k"` // connect connectcut disconnect console chat ladd lrem lerr agent mark bcastx sendx cut badlogin | bulk (scale cases: J = how many, I%3 = 0 recorded broadcasts, 1 console outputs, 2 agent registrations)
 	I   int    `json:"i"`
 	J   int    `json:"j"`
 	Via bool   `json:"via"` // through an operator's websocket (only while no dead client exists) instead of the direct call
@@ -49,6 +49,22 @@ func genA(t *rapid.T) CaseA {
 			J:   rapid.IntRange(0, 40).Draw(t, "j"),
 			Via: rapid.Bool().Draw(t, "via"),
 		})
+	}
+	if rapid.IntRange(0, 149).Draw(t, "scale") == 149 && rapid.Bool().Draw(t, "scale-2") {
+		// (rapid draws the upper bound of a range in about 1 case in 36, whatever the range: with the coin, 1 in 70)
+		// the scale dimension: one bulk of a threshold-adjacent number of retained events
+		// (or live sessions) BEFORE, IN THE MIDDLE OF or AFTER the ordinary operations
+		kind := rapid.SampledFrom([]int{0, 0, 0, 1, 2}).Draw(t, "scale-kind")
+		n := 0
+		if kind == 2 {
+			n = drawScale(t, 63, 257, "scale-sessions")
+		} else {
+			n = drawScale(t, 63, 8193, "scale-events")
+		}
+		at := rapid.IntRange(0, len(c.Ops)).Draw(t, "scale-at")
+		ops := append([]Op(nil), c.Ops[:at]...)
+		ops = append(ops, Op{K: "bulk", I: kind, J: n})
+		c.Ops = append(ops, c.Ops[at:]...)
 	}
 	return c
 }
@@ -820,6 +836,43 @@ func (w *world) step1(op Op) *core.Violation {
 		w.retained = append(w.retained, ent{p: p})
 		return w.expectAll(p, nil, "live")
 
+	case "bulk":
+		// the cheapest real producers, in a loop: what every emitter of the teamserver does
+		// (EventAppend + EventBroadcast), AgentConsole, or AgentAdd + AgentSendNotify
+		if op.I%3 == 2 {
+			for k := 0; k < op.J; k++ {
+				if v := w.registerAgent(); v != nil {
+					return v
+				}
+			}
+			return nil
+		}
+		id := "0badc0de"
+		if len(w.agents) > 0 {
+			id = fmt.Sprintf("%08x", w.agents[0].id)
+		}
+		var ps []string
+		for k := 0; k < op.J; k++ {
+			tk := w.token("k")
+			p := "tslog/" + tk
+			if op.I%3 == 1 {
+				ts.AgentConsole(id, agent.HAVOC_CONSOLE_MESSAGE, map[string]string{"Type": "Info", "Message": tk})
+				p = "out/" + id + "/" + tk
+			} else {
+				pk := events.Teamserver.Logger(tk)
+				ts.EventAppend(pk)
+				ts.EventBroadcast("", pk)
+			}
+			w.retained = append(w.retained, ent{p: p})
+			ps = append(ps, p)
+		}
+		for _, m := range alive {
+			if v := w.expect(m, ps, "live"); v != nil {
+				return v
+			}
+		}
+		return nil
+
 	case "bcastx":
 		// record + fan-out with one client excluded (the API handleRequest / RemoveClient use)
 		tk := w.token("x")
@@ -950,10 +1003,28 @@ func classifyA(c CaseA) core.Class {
 	remAfterAdd, sendAfterCut, connAfter := false, false, false
 	cutSeen := false
 	kinds := map[string]bool{}
-	for _, op := range c.Ops {
+	scale := ""
+	for i, op := range c.Ops {
 		cl.Labels = append(cl.Labels, "op:"+op.K)
 		kinds[op.K] = true
 		switch op.K {
+		case "bulk":
+			what := []string{"retained-events", "retained-console-outputs", "live-sessions"}[op.I%3]
+			where := "in-the-middle"
+			if i == 0 {
+				where = "before-all-other-operations"
+			} else if i == len(c.Ops)-1 {
+				where = "after-all-other-operations(then-the-final-newcomer)"
+			}
+			scale = what + ":" + scaleBucket(op.J) + ":" + where
+			cl.Labels = append(cl.Labels, "scale:"+what+":"+scaleBucket(op.J), "scale:bulk-"+where)
+			if cutSeen {
+				sendAfterCut = true
+				cl.Labels = append(cl.Labels, "scale:bulk-with-a-failed-client-present")
+			}
+			if nRem > 0 {
+				cl.Labels = append(cl.Labels, "scale:bulk-after-listener-removal")
+			}
 		case "connect":
 			nConn++
 			if nRem > 0 {
@@ -967,6 +1038,9 @@ func classifyA(c CaseA) core.Class {
 			}
 		case "lrem":
 			if nL > 0 {
+				if scale != "" {
+					cl.Labels = append(cl.Labels, "scale:listener-removal-after-bulk")
+				}
 				nRem++
 				remAfterAdd = true
 				cl.Labels = append(cl.Labels, "lrem:"+[]string{"by-exact-name", "by-exact-name", "by-exact-name", "by-trim-variant", "by-case-variant", "by-exact-name"}[op.J%6])
@@ -1013,13 +1087,16 @@ func classifyA(c CaseA) core.Class {
 	}
 	cl.Fingerprint = fmt.Sprintf("conn=%s|rem=%s|cut=%s|bad=%s|remAfterAdd=%v|sendAfterCut=%v|connAfterRem=%v|lerr=%v|mark=%v|excl=%v|n=%d",
 		bucket(nConn), bucket(nRem), bucket(nCut), bucket(nBad), remAfterAdd, sendAfterCut, connAfter, kinds["lerr"], kinds["mark"], kinds["bcastx"], len(c.Ops)/8)
+	if scale != "" {
+		cl.Fingerprint = fmt.Sprintf("scale=%s|conn=%s|rem=%s|cut=%s|remAfterAdd=%v|sendAfterCut=%v", scale, bucket(nConn), bucket(nRem), bucket(nCut), remAfterAdd, sendAfterCut)
+	}
 	return cl
 }
 
 func TestC11a(t *testing.T) {
 	core.Run(t, core.Spec[CaseA]{
 		Property: "C11", Sub: "a",
-		Rule: "histories of 1-24 operations on the real teamserver (real Start(), engine served on a fault-injecting listener, gorilla clients): operator connect+login (followed by a one-shot chat of the newcomer), disconnect (abrupt / close frame), console output (ts.AgentConsole), chat through an operator's websocket, listener add (SMB / External; through an operator's request or ListenerStart), listener remove (request or DispatchEvent), ListenerError, agent registration (AgentAdd+AgentSendNotify), mark dead/alive, recorded broadcast with one client excluded, SendEvent to one client, transport cut at a client (writes fail before the next frame / after 1-37 bytes of it / whole transport killed between frames), an operator logging in over a transport that fails at a frame of its connect replay (drawn as a fraction of the whole replay = auth reply + history + live sessions, or aimed inside the live-session part; live agents registered by AgentAdd+AgentSendNotify), refused login; after every injected fault an agent-side probe (register a new agent, AgentExist, AgentInstance, each under its own watchdog, the new session announced to the survivors); every history ends with a newcomer who must get the history and all live sessions including those of the probes. Oracle: a model of the retained list (everything recorded with OneTime != true, listener Add events pruned on removal, set Offline on error) - a newcomer receives Success, then exactly the model's list in order, then one NewSession per active agent; every live event arrives exactly once at every authenticated client except the excluded one, one JSON package per websocket message, nothing else arrives; one-shot events (NewSession, the newcomers' chats) arrive live and never in a replay; after a cut every operation still returns within the 20 s watchdog and no client mutex stays locked. Non-trivial: a replay after a listener removal, or a send following a failed client",
+		Rule: "histories of 1-24 operations on the real teamserver (real Start(), engine served on a fault-injecting listener, gorilla clients): operator connect+login (followed by a one-shot chat of the newcomer), disconnect (abrupt / close frame), console output (ts.AgentConsole), chat through an operator's websocket, listener add (SMB / External; through an operator's request or ListenerStart), listener remove (request or DispatchEvent), ListenerError, agent registration (AgentAdd+AgentSendNotify), mark dead/alive, recorded broadcast with one client excluded, SendEvent to one client, transport cut at a client (writes fail before the next frame / after 1-37 bytes of it / whole transport killed between frames), an operator logging in over a transport that fails at a frame of its connect replay (drawn as a fraction of the whole replay = auth reply + history + live sessions, or aimed inside the live-session part; live agents registered by AgentAdd+AgentSendNotify), refused login; after every injected fault an agent-side probe (register a new agent, AgentExist, AgentInstance, each under its own watchdog, the new session announced to the survivors); every history ends with a newcomer who must get the history and all live sessions including those of the probes. Oracle: a model of the retained list (everything recorded with OneTime != true, listener Add events pruned on removal, set Offline on error) - a newcomer receives Success, then exactly the model's list in order, then one NewSession per active agent; every live event arrives exactly once at every authenticated client except the excluded one, one JSON package per websocket message, nothing else arrives; one-shot events (NewSession, the newcomers' chats) arrive live and never in a replay; after a cut every operation still returns within the 20 s watchdog and no client mutex stays locked. Non-trivial: a replay after a listener removal, or a send following a failed client. SCALE dimension (about one case in 70; labels scale:*): one extra operation 'bulk' at a generated place - before all, in the middle of, or after all other operations - which is a loop of the cheapest real producer: 63-8193 recorded broadcasts (EventAppend+EventBroadcast) or console outputs (AgentConsole), or 63-257 agent registrations (AgentAdd+AgentSendNotify; cut at 257 because each one is a database insert), the count taken from the threshold-adjacent pool {63,64,65, 127,128,129, 255,256,257, 511,512,513, 999,1000,1001, 1023,1024,1025, 2047,2048,2049, 4095,4096,4097, 8191,8192,8193}; every alive operator must receive all of them in order, every later newcomer (connect, a login whose transport fails at a fraction of the now long replay, the final newcomer) gets the long history / all live sessions, and listener removals after the bulk prune Add events that sit early in a long list. Oracle unchanged",
 		Gen:   genA, Check: checkA, Classify: classifyA,
 		Assumptions: []string{
 			"raw Listener/Add requests of operators (Head.User set), which handleRequest also records and which the real client ignores in a replay, are left out of the comparison",
